@@ -6,9 +6,11 @@ import (
 	"go/constant"
 	"go/types"
 	"math/big"
+	"os"
 	"strings"
 
 	"golang.org/x/tools/go/packages"
+	"golang.org/x/tools/go/ssa"
 )
 
 // typed term
@@ -27,6 +29,8 @@ type TEnv struct {
 	oldEntry bool              // old() refers to function entry
 	inOld    bool
 	entryVars map[string]tvT   // entry values of parameters (old(p))
+	absIdx   map[*Expr]string  // index nodes translated as an absolute array position (quantifier change of variables)
+	patTerm  string            // instantiation pattern recorded by the primary occurrence
 }
 
 var mathInt = types.Typ[types.UntypedInt]
@@ -190,6 +194,7 @@ func (g *Gen) trans(e *Expr, env *TEnv) tvT {
 		for k, v := range env.vars {
 			env2.vars[k] = v
 		}
+		env2.absIdx = env.absIdx
 		var bs []string
 		for _, b := range e.Vars {
 			gt, so := g.resolveType(b.Type, env.pkg)
@@ -197,7 +202,51 @@ func (g *Gen) trans(e *Expr, env *TEnv) tvT {
 			env2.vars[b.Name] = tvT{t: name, gt: gt, sort: so}
 			bs = append(bs, fmt.Sprintf("(%s %s)", name, so))
 		}
+		// Change of variables for quantifiers over slice positions: if the (single) bound variable i
+		// indexes a slice as s[i + c], quantify over the ABSOLUTE position k = off(s) + i + c instead
+		// (a bijection), so that the instantiation pattern is the plain select term at k. Index
+		// arithmetic inside patterns defeats E-matching (terms get re-associated).
+		if len(e.Vars) == 1 && so64(bs[0]) && os.Getenv("GOVC_ABSIDX") != "" {
+			if prim, sl, off := findPrimaryIndex(e.Args[0], e.Vars[0].Name); prim != nil {
+				func() {
+					defer func() {
+						if r := recover(); r != nil {
+							if _, ok := r.(transErr); !ok {
+								panic(r)
+							}
+						}
+					}()
+					S := g.trans(sl, env2)
+					isSlice := false
+					if S.gt != nil {
+						if _, ok := S.gt.Underlying().(*types.Slice); ok || isString(S.gt) {
+							isSlice = true
+						}
+					}
+					if !isSlice {
+						return
+					}
+					cT := g.idx(0)
+					if off != nil {
+						cT = g.asIdx(g.trans(off, env2))
+					}
+					k := "q_" + e.Vars[0].Name
+					iT := g.subIdx(g.subIdx(k, "(off "+S.t+")"), cT)
+					v := env2.vars[e.Vars[0].Name]
+					v.t = iT
+					env2.vars[e.Vars[0].Name] = v
+					if env2.absIdx == nil {
+						env2.absIdx = map[*Expr]string{}
+					}
+					env2.absIdx[prim] = k
+				}()
+			}
+		}
+		env2.patTerm = ""
 		body := g.transBool(e.Args[0], env2)
+		if env2.patTerm != "" {
+			return boolTv(fmt.Sprintf("(%s (%s) (! %s :pattern (%s)))", e.Op, strings.Join(bs, " "), body, env2.patTerm))
+		}
 		return boolTv(fmt.Sprintf("(%s (%s) %s)", e.Op, strings.Join(bs, " "), body))
 	}
 	g.fail("cannot translate %s", e)
@@ -331,19 +380,11 @@ func (g *Gen) objTv(obj types.Object, env *TEnv) tvT {
 		if sp == nil {
 			g.fail("no ssa package for %s", o.Pkg().Path())
 		}
-		gl, ok := sp.Members[o.Name()].(interface {
-			RelString(*types.Package) string
-		})
-		_ = gl
+		gl, ok := sp.Members[o.Name()].(*ssa.Global)
 		if !ok {
 			g.fail("not a global: %s", o.Name())
 		}
-		id, have := globalIds[o.Pkg().Path()+"."+o.Name()]
-		if !have {
-			id = len(globalIds) + 1
-			globalIds[o.Pkg().Path()+"."+o.Name()] = id
-		}
-		return g.derefTv(fmt.Sprintf("%d", id), o.Type(), env)
+		return g.derefTv(g.globalRef(gl), o.Type(), env)
 	}
 	g.fail("unsupported object %s", obj)
 	return tvT{}
@@ -409,6 +450,11 @@ func (g *Gen) transSel(e *Expr, env *TEnv) tvT {
 			}
 			c, _ := g.fieldComp(cur, fi)
 			v := tvT{t: fmt.Sprintf("(select %s %s)", env.heap(c), r), gt: ft}
+			if so := g.sortOf(ft); so == "Slice" && !strings.Contains(v.t, "q_") {
+				// every slice/string stored in the heap is well-formed (true of every real state)
+				// (in the entry state it belongs to an object that existed at entry)
+				g.assumeAlways(g.sliceWF(v.t, g.pristine[env.heap(c)]))
+			}
 			return v
 		}
 		return tvT{t: r, gt: types.NewPointer(cur)}
@@ -462,6 +508,12 @@ func (g *Gen) transIdx(e *Expr, env *TEnv) tvT {
 	switch u := x.gt.Underlying().(type) {
 	case *types.Slice:
 		c, _ := g.memComp(u.Elem())
+		if k, ok := env.absIdx[e]; ok {
+			// primary occurrence of a quantified position: absolute index, and the pattern of the quantifier
+			t := fmt.Sprintf("(select (select %s (base %s)) %s)", env.heap(c), x.t, k)
+			env.patTerm = t
+			return g.elemTv(t, u.Elem())
+		}
 		return g.elemTv(fmt.Sprintf("(select (select %s (base %s)) %s)", env.heap(c), x.t, g.addIdx("(off "+x.t+")", i)), u.Elem())
 	case *types.Basic: // string
 		c, _ := g.memComp(types.Typ[types.Uint8])
@@ -586,6 +638,15 @@ func (g *Gen) transBin(e *Expr, env *TEnv) tvT {
 		}
 		if r != nil {
 			return tvT{t: g.numBig(r, nil), gt: mathInt, lit: r}
+		}
+	}
+	// nil compared with a slice / string value
+	if op == "==" || op == "!=" {
+		isNil := func(v tvT) bool { return v.t == "0" && v.gt == types.Typ[types.UnsafePointer] }
+		if isNil(a) && g.sortOfTv(b) == "Slice" {
+			a = tvT{t: g.nilSlice(), gt: b.gt}
+		} else if isNil(b) && g.sortOfTv(a) == "Slice" {
+			b = tvT{t: g.nilSlice(), gt: a.gt}
 		}
 	}
 	a, b, t := g.coerce(a, b)
